@@ -57,6 +57,7 @@ Definition do_esc (s : screen) (inter : list N) (b : N) : res (screen * list eve
     else if b =? 77 then do s1 <- scr_ri s; Ok (s1, [])
     else if b =? 99 then do s1 <- scr_ris s; Ok (s1, [])
     else if b =? 103 then Ok (s, [EVisualBell])
+    else if b =? 92 then Ok (s, [])          (* ST, after the K18 repair *)
     else Ok (s, [EUnhEscape None None b])
   end.
 
